@@ -630,7 +630,7 @@ def hidden_names(line):
         if tok.startswith("R:"):
             f = tok.split(":")
             q = f[2].split(",")
-            if len(q) == 6 and q[3] == "P" and q[4] == "0":
+            if len(q) >= 6 and q[3] == "P" and q[4] == "0":
                 out.add(f[1])
     return out
 
